@@ -42,9 +42,12 @@
    CG counter) for a harness subclass of AbstractLineSearchOptimizer with direction -gradient, for CG, for the
    first step of BFGS/L-BFGS (with and without box), and for SteepestDescent; tolerance 1e-9 after the first
    inexact floating-point operation (CG's beta).
+   The comparison of a history stops where the exact model reaches the minimiser (zero gradient) and, once the
+   run is inexact, where |gradient|^2 <= 1e-9 max(1,|value|): there the Armijo test of the C++ compares rounding noise.
    WHAT IS ONLY MONITORED on the C++ (all classes: SteepestDescent, Adam, CG, BFGS, L-BFGS with/without box,
    Rprop variants with/without box; line searches Dlinmin/WolfeCubic/Backtracking; quadratics, Rosenbrock, box
-   variants): value = re-evaluated objective, finiteness, feasibility, monotonicity of line-search methods,
+   variants): value = re-evaluated objective and stored derivative = re-evaluated gradient (bitwise), finiteness,
+   feasibility (BoxConstraintHandler::isFeasible, i.e. with its 1e-13 slack), monotonicity of line-search methods,
    minimiser reached within the step budget (CG/BFGS/L-BFGS on quadratics with condition <= 1e4),
    save-at-k / restore into a fresh differently initialised instance / continue equality.
    NOT COVERED: convergence proofs; TrustRegionNewton, which is abstract in this tree (its init takes a
